@@ -39,9 +39,9 @@ def ViewN (pj : PJ) (i : Iter) : Prop :=
 def SimSet (pj : PJ) (i : Iter) (o : Out) (r : Res (PJ × Iter)) : Prop :=
   match r with
   | .ok (pj', i') => ∃ s, o = .ret s [.bool false] ∧ s.tape = pj'.tape ∧
-      s.env.get "i.tape.Strings.B" = some (.bytes pj'.strings) ∧ iterAt s.env "i" = some i' ∧ pj'.msg = pj.msg
+      s.env.get "Strings.B" = some (.bytes pj'.strings) ∧ iterAt s.env "i" = some i' ∧ pj'.msg = pj.msg
   | .error _ => ∃ s, o = .ret s [.bool true] ∧ s.tape = pj.tape ∧
-      s.env.get "i.tape.Strings.B" = some (.bytes pj.strings) ∧ iterAt s.env "i" = some i
+      s.env.get "Strings.B" = some (.bytes pj.strings) ∧ iterAt s.env "i" = some i
   | .panic => o = .panic
   | .diverge => False
 
@@ -124,7 +124,7 @@ def nopLoop : Stmt :=
 /-- the store while the loop runs: the receiver, the string buffer, the loop variable -/
 def envL (i : Iter) (strs : Bytes) (j : Int) : Env :=
   [("i.off", .int i.off), ("i.addNext", .int i.addNext), ("i.cur", .u64 i.cur), ("i.t", .u8 i.t), ("i.lim", .int i.lim),
-   ("i.tape.Strings.B", .bytes strs), ("j", .int j)]
+   ("Strings.B", .bytes strs), ("j", .int j)]
 
 /-- the end of the fill lies in the view: the loop is the model's `nopFill`; `cur - j + 1` units of fuel suffice -/
 theorem nopLoop_ok (i : Iter) (strs : Bytes) (hcur : i.cur.toNat < 2^63) :
